@@ -34,6 +34,8 @@ ConnectMethods ==
 ReplugMethods == { C("connect", <<>>, ""), C("disconnect", <<>>, ""), C("command", <<>>, "SM,100,0,0"), C("query", <<>>, "QX") }
 AllDevices == {"ebb_ok", "ebb_late", "ebb_old", "ebb_noversion", "ebb_in_text", "non_ebb", "silent", "unopenable", "absent", "raise_on_probe"}
 OkDevices == {"ebb_ok"}
+\* the version gate at its edge: the minimum itself, one below, multi-digit components on either side
+VersionDevices == {"ebb_min", "ebb_below", "ebb_v3_0_10", "ebb_v10", "ebb_v2_10_9"}
 \* C16: board round trips
 MinInt32 == (0 - 2147483647) - 1
 Int32Vals == {0, 1, -1, 127, 128, 255, 256, 65535, 16777216, -16777216, 16909060, -16909060, 2147483647, -2147483647, MinInt32}
